@@ -114,6 +114,29 @@ func signOf(e Expr) Sign {
 	if s := signOfCore(e); s != SignUnknown {
 		return s
 	}
+	// an infinite constant dominates every finite term (elements and symbols stand for finite reals)
+	{
+		inf, n := 0, 0
+		for _, t := range e.terms {
+			for _, f := range t.f {
+				if f.a.Kind == AFn && strings.HasPrefix(f.a.Name, "const_") {
+					n++
+					if len(t.f) == 1 && f.e == 1 && (f.a.Name == "const_+Inf" || f.a.Name == "const_-Inf") {
+						inf = t.c.Sign()
+						if f.a.Name == "const_-Inf" {
+							inf = -inf
+						}
+					}
+				}
+			}
+		}
+		if n == 1 && inf > 0 {
+			return SignBigPos
+		}
+		if n == 1 && inf < 0 {
+			return SignBigNeg
+		}
+	}
 	// a quantity that is far from zero keeps its sign when a tiny constant (a tolerance) is added
 	if ActiveFacts != nil && len(e.terms) >= 2 {
 		var rest []term
@@ -203,8 +226,18 @@ func Num(r *big.Rat) Expr {
 
 func NumI(i int64) Expr { return Num(new(big.Rat).SetInt64(i)) }
 
+// nanInPlay is set once a NaN constant has been created; from then on arithmetic absorbs it (IEEE: any
+// arithmetic on NaN is NaN) and every ordered comparison / equality involving it is false.
+var nanInPlay bool
+
+func nanE() Expr { return atomExpr(&Atom{Kind: AFn, Name: "const_NaN"}) }
+
 func NumF(f float64) Expr {
-	if math.IsNaN(f) || math.IsInf(f, 0) {
+	if math.IsNaN(f) {
+		nanInPlay = true
+		return nanE()
+	}
+	if math.IsInf(f, 0) {
 		return FnE(fmt.Sprintf("const_%v", f))
 	}
 	r := new(big.Rat)
@@ -401,6 +434,9 @@ func normTerms(ts []term) Expr {
 }
 
 func Add(a, b Expr) Expr {
+	if nanInPlay && (HasNaN(a) || HasNaN(b)) {
+		return nanE()
+	}
 	ts := make([]term, 0, len(a.terms)+len(b.terms))
 	ts = append(ts, a.terms...)
 	ts = append(ts, b.terms...)
@@ -437,10 +473,48 @@ func mulFacs(a, b []fac) []fac {
 			}
 		}
 	}
+	// pow(b, x)·pow(b, y) = pow(b, x+y)
+	{
+		byBase := map[string][]string{}
+		for _, k := range keys {
+			if f := m[k]; f != nil && f.a.Kind == APow && f.e == 1 {
+				bk := f.a.Args[0].Key()
+				byBase[bk] = append(byBase[bk], k)
+			}
+		}
+		for _, ks := range byBase {
+			if len(ks) < 2 {
+				continue
+			}
+			sort.Strings(ks)
+			base := m[ks[0]].a.Args[0]
+			ex := Expr{}
+			for _, k := range ks {
+				ex = Add(ex, m[k].a.Args[1])
+			}
+			np := PowE(base, ex)
+			if len(np.terms) != 1 || np.terms[0].c.Cmp(big.NewRat(1, 1)) != 0 {
+				continue // the merged power is a constant or a sum: factors cannot carry it, leave as is
+			}
+			for _, k := range ks {
+				delete(m, k)
+			}
+			for _, nf := range np.terms[0].f {
+				nk := nf.a.Key()
+				if o, ok := m[nk]; ok {
+					o.e += nf.e
+				} else {
+					c := nf
+					m[nk] = &c
+					keys = append(keys, nk)
+				}
+			}
+		}
+	}
 	// pow(b, e)·b^k = pow(b, e+k) when b is a single atom
 	for _, k := range keys {
 		f := m[k]
-		if f.a.Kind != APow || f.e != 1 {
+		if f == nil || f.a.Kind != APow || f.e != 1 {
 			continue
 		}
 		base := f.a.Args[0]
@@ -488,6 +562,9 @@ func mulFacs(a, b []fac) []fac {
 }
 
 func Mul(a, b Expr) Expr {
+	if nanInPlay && (HasNaN(a) || HasNaN(b)) {
+		return nanE()
+	}
 	if len(a.terms) == 0 || len(b.terms) == 0 {
 		return Expr{}
 	}
@@ -526,6 +603,9 @@ func ratPow(c *big.Rat, k int) (*big.Rat, bool) {
 
 // PowInt raises a to the integer power k.
 func PowInt(a Expr, k int) Expr {
+	if nanInPlay && HasNaN(a) && k != 0 {
+		return nanE()
+	}
 	if k == 0 {
 		return NumI(1)
 	}
@@ -636,6 +716,9 @@ func atomPow(a *Atom, k int) Expr {
 
 // PowE raises a to a symbolic or constant real exponent.
 func PowE(a Expr, e Expr) Expr {
+	if nanInPlay && (HasNaN(a) || HasNaN(e)) && !e.IsZero() {
+		return nanE()
+	}
 	if r, ok := e.Const(); ok && r.IsInt() && r.Num().IsInt64() {
 		k := r.Num().Int64()
 		if k >= -64 && k <= 64 {
@@ -649,6 +732,13 @@ func Div(a, b Expr) Expr { return Mul(a, PowInt(b, -1)) }
 
 // FnE applies a named function, with a few exact simplifications.
 func FnE(name string, args ...Expr) Expr {
+	if nanInPlay && !strings.HasPrefix(name, "const_") {
+		for _, a := range args {
+			if HasNaN(a) {
+				return nanE()
+			}
+		}
+	}
 	switch name {
 	case "exp":
 		if args[0].IsZero() {
@@ -1038,7 +1128,7 @@ func sigmaPlain(v string, n Poly, body Expr) Expr {
 		if c == 1 {
 			return body.SubstIdx(map[string]Poly{v: PInt(0)})
 		}
-		if c <= 24 {
+		if c <= 640 {
 			// concrete small range: write the sum out
 			out := Expr{}
 			for i := int64(0); i < c; i++ {
@@ -1325,6 +1415,52 @@ func SolveSym(e Expr) (string, Expr, bool) {
 	return name, Num(v), true
 }
 
+// LinearLeaf finds a tensor element that occurs in e exactly once, as a term k·L (k rational, L to the first
+// power, no other factor).  Used to steer a witness onto a thin condition such as |a-b| <= τ.
+func LinearLeaf(e Expr) (name string, idx []Poly, k float64, ok bool) {
+	count := map[string]int{}
+	var countE func(x Expr)
+	countE = func(x Expr) {
+		for _, t := range x.terms {
+			for _, f := range t.f {
+				if f.a.Kind == ALeaf {
+					count[f.a.Key()]++
+				} else {
+					for _, a := range f.a.Args {
+						countE(a)
+					}
+					if f.a.Cond != nil {
+						f.a.Cond.walkExprs(countE)
+					}
+				}
+			}
+		}
+	}
+	countE(e)
+	for _, t := range e.terms {
+		if len(t.f) == 1 && t.f[0].a.Kind == ALeaf && t.f[0].e == 1 && count[t.f[0].a.Key()] == 1 {
+			kf, _ := t.c.Float64()
+			if kf != 0 {
+				return t.f[0].a.Name, t.f[0].a.Idx, kf, true
+			}
+		}
+	}
+	return "", nil, 0, false
+}
+
+// AbsArgs returns the arguments of the top-level abs(·) atoms of e.
+func AbsArgs(e Expr) []Expr {
+	var out []Expr
+	for _, t := range e.terms {
+		for _, f := range t.f {
+			if f.a.Kind == AFn && f.a.Name == "abs" && len(f.a.Args) == 1 {
+				out = append(out, f.a.Args[0])
+			}
+		}
+	}
+	return out
+}
+
 // OnlyInverseSizes reports whether e is a single term with coefficient 1 whose factors are all plain
 // symbols raised to negative powers (a product of inverse dimension sizes).
 func OnlyInverseSizes(e Expr) bool {
@@ -1431,6 +1567,9 @@ func (e Expr) Constants() []float64 {
 
 // HasNaN reports whether e is (or contains at top level) the NaN constant marker.
 func HasNaN(e Expr) bool {
+	if !nanInPlay {
+		return false
+	}
 	for _, t := range e.terms {
 		for _, f := range t.f {
 			if f.a.Kind == AFn && f.a.Name == "const_NaN" {
